@@ -195,7 +195,8 @@ def tla_program(prog: dict) -> dict:
     stage_of = {}
     for s in st:
         for t in s["tasks"]:
-            beh[t["name"]] = {"k": t["k"], "n": t["n"], "target": t["target"]}
+            beh[t["name"]] = {"k": "jump" if t["k"] == "jump2" else t["k"], "n": t["n"], "target": t["target"],
+                              "targets": t["target"].split(",") if t["target"] else [""]}
             stage_of[t["name"]] = s["ref"]
     return {
         "name": prog["name"],
